@@ -2,7 +2,8 @@
 (***************************************************************************)
 (* Validation of histories recorded from the real lena Cache pipelines     *)
 (* (lenaverif/cachelib.py).  Trace is a sequence of histories              *)
-(*   [n, nc, shape, ev]   ev = sequence of events                          *)
+(*   [lens, nc, shape, ev]   ev = sequence of events (lens: flow length of  *)
+(*   each data version)                                                    *)
 (*   [cmd, a, res, v, c, rc, pulled, wpre, wmid]                           *)
 (* cmd: new / drop / data / start / next / stop; res: what the consumer    *)
 (* saw (ok, val, stop, inj = injected exception of element a, exc = any    *)
@@ -17,10 +18,10 @@
 EXTENDS Cache, IOUtils
 Trace == JsonDeserialize(IOEnv.TRACE_FILE)
 VARIABLES hi, j
-tvars == <<n, nc, shape, ver, file, stored, intr, ph, rc, L, pos, out, pulled, wpre, wmid, h, hi, j>>
+tvars == <<lens, nc, shape, ver, file, stored, intr, ph, rc, L, pos, out, pulled, wpre, wmid, h, hi, j>>
 Ev == Trace[hi].ev
 TInit == /\ hi \in 1..Len(Trace) /\ j = 1
-         /\ InitWith(Trace[hi].n, Trace[hi].nc, Trace[hi].shape)
+         /\ InitWith(Trace[hi].lens, Trace[hi].nc, Trace[hi].shape)
 \* a run fed by cache l touches nothing before l
 Untouched(l, e) == l > 0 => e.pulled = 0 /\ e.wpre = 0 /\ (l = 2 => e.wmid = 0)
 Match(e) ==
